@@ -1,9 +1,10 @@
 SPECIFICATION Spec
 CONSTANTS
   Deviations <- RealDevs
-  RuleSets <- S_mul1
-  MaxDepth = 1
+  RuleSets <- Q_negneg
+  MaxDepth = 2
   Wide = FALSE
+INVARIANT PropertyHolds
 INVARIANT DeviationsExplain
 INVARIANT Emit
 CHECK_DEADLOCK FALSE
